@@ -123,3 +123,140 @@ Proof.
   - (* 9 unix fds *) eexists. eexists. split; [reflexivity|]. cbn [set_field]. split; [reflexivity|].
     fin_known E1 E2 E3 E4 E5 E6 E7 E8 E9.
 Qed.
+
+(* ---------- one element of the field array, the whole array ---------- *)
+Lemma field_step e b pos a a' q fs : 1 <= pos -> proj fs = sproj a -> sp_field e b pos a = Some (a', q) ->
+  exists code v, de_field e b pos = Ok (code, v, q) /\ code <> 0 /\
+    ((9 < code /\ sproj a' = sproj a) \/ (code <= 9 /\ exists fs', set_field fs code v = Ok fs' /\ proj fs' = sproj a')).
+Proof.
+  intros Hpos Hj H. unfold sp_field in H.
+  destruct (sp_align b pos 8) as [p|] eqn:Ea; [|discriminate].
+  destruct (sp_byte b p) as [[code p1]|] eqn:Eb; [|discriminate].
+  destruct (sp_string false e b p1) as [[sg p2]|] eqn:Es; [|discriminate].
+  destruct (parse_sig sg) as [vs|] eqn:Ep; [|discriminate].
+  assert (Hb : vs <> SUnit /\
+               (if lbeq (show vs) sg then
+                  if code =? 0 then None
+                  else if code <=? 9 then sp_known code vs e b p2 a
+                  else match sp_value vs field_value_depths e b p2 with
+                       | Some p3 => Some ({| s_path := s_path a; s_iface := s_iface a; s_member := s_member a; s_errname := s_errname a;
+                                             s_reply := s_reply a; s_dest := s_dest a; s_sender := s_sender a; s_sig := s_sig a;
+                                             s_fds := s_fds a; s_unk := s_unk a + 1 |}, p3)
+                       | None => None
+                       end
+                else None) = Some (a', q)).
+  { destruct vs; try discriminate; (split; [discriminate|exact H]). }
+  clear H. destruct Hb as [Hu H].
+  destruct (lbeq (show vs) sg) eqn:El; [|discriminate].
+  destruct (code =? 0) eqn:E0; [discriminate|].
+  apply sp_align_ok in Ea. destruct Ea as [Ea _]. apply sp_byte_ok in Eb.
+  pose proof (de_variant_tail e b p1 sg p2 vs Es Ep Hu El) as Hv.
+  unfold de_field. rewrite Ea. cbn [bind]. rewrite Eb. cbn [bind]. rewrite Hv.
+  exists code. destruct (code <=? 9) eqn:E9.
+  - destruct (tail_known code vs e b p2 a a' q fs ltac:(lia) Hj H) as (v & fs' & Ht & Hs & Hj').
+    exists v. rewrite Ht. cbn [bind]. split; [reflexivity|]. split; [lia|]. right. split; [lia|]. eauto.
+  - destruct (sp_value vs field_value_depths e b p2) as [p3|] eqn:Ev; [|discriminate]. injection H as <- <-.
+    destruct (tail_unknown _ _ _ _ _ Ev) as (v & Ht). exists v. rewrite Ht. cbn [bind].
+    split; [reflexivity|]. split; [lia|]. left. split; [lia|reflexivity].
+Qed.
+
+Lemma fields_loop e b endp : forall fuel pos a a' fs, 1 <= pos -> proj fs = sproj a ->
+  sp_fields fuel e b endp pos a = Some a' ->
+  exists fs', de_fields_loop fuel e b endp pos fs = Ok (fs', endp) /\ proj fs' = sproj a'.
+Proof.
+  induction fuel as [|f IH]; intros pos a a' fs Hpos Hj H; cbn [sp_fields de_fields_loop] in *.
+  - destruct (pos =? endp) eqn:E; [|discriminate]. injection H as <-. exists fs. split; [f_equal; f_equal; lia|exact Hj].
+  - destruct (pos =? endp) eqn:E; [injection H as <-; exists fs; split; [f_equal; f_equal; lia|exact Hj]|].
+    destruct (sp_field e b pos a) as [[a1 p3]|] eqn:Ef; [|discriminate].
+    destruct (p3 <=? endp) eqn:El; [|discriminate].
+    destruct (field_step e b pos a a1 p3 fs Hpos Hj Ef) as (code & v & Hd & Hc0 & Hcase).
+    rewrite Hd. cbn [bind]. replace (endp <? p3) with false by lia. replace (code =? 0) with false by lia.
+    apply de_field_ok in Hd; [|exact Hpos]. destruct Hd as (_ & Hlt & _).
+    destruct Hcase as [[H9 Hs]|[H9 (fs1 & Hs & Hj1)]].
+    + replace (9 <? code) with true by lia. apply (IH p3 a1 a' fs); [lia|rewrite Hs; exact Hj|exact H].
+    + replace (9 <? code) with false by lia. rewrite Hs. cbn [bind]. apply (IH p3 a1 a' fs1); [lia|exact Hj1|exact H].
+Qed.
+
+(* ---------- a whole message ---------- *)
+Lemma sp_u32_at e b pos n p : pos mod 4 = 0 -> sp_u32 e b pos = Some (n, p) -> de_u32 e b pos = Ok (n, pos + 4) /\ p = pos + 4 /\ pos + 4 <= len b /\ n < two32.
+Proof.
+  intros Hal H. pose proof (sp_u32_ok _ _ _ _ _ H) as Hd. pose proof (de_u32_ok _ _ _ _ _ Hd) as (_ & Hle & Hn).
+  unfold sp_u32, sp_fixed in H. destruct (sp_align b pos 4) as [p0|] eqn:Ea; [|discriminate].
+  apply sp_align_ok in Ea. destruct Ea as [_ ->]. rewrite (padding_0 pos 4) in H by (lia || exact Hal).
+  unfold sp_take in H. destruct (pos + 0 + 4 <=? len b); [|discriminate]. injection H as _ <-.
+  replace (pos + 0 + 4) with (pos + 4) in * by lia. auto.
+Qed.
+Lemma sp_byte_at b pos n p : sp_byte b pos = Some (n, p) -> de_u8 b pos = Ok (n, pos + 1) /\ n < 256.
+Proof.
+  intros H. apply sp_byte_ok in H. pose proof (de_u8_ok _ _ _ _ H) as (-> & _ & Hn). auto.
+Qed.
+Lemma endian_of_byte_inv c e : endian_of_byte c = Some e -> c = endian_byte e.
+Proof.
+  unfold endian_of_byte. destruct (beq c "l") eqn:E1; [intros [= <-]; apply Byte.byte_dec_bl in E1; exact E1|].
+  destruct (beq c "B") eqn:E2; [intros [= <-]; apply Byte.byte_dec_bl in E2; exact E2|discriminate].
+Qed.
+Lemma ovalid_optb v o : ovalid v o -> optb v (omf o) = true.
+Proof. destruct o as [[s st]|]; cbn; auto. Qed.
+
+Theorem message_ok b sm : spec_parse b = Some sm -> 1 <= sm_type sm <= 4 ->
+  exists m, from_raw_parts (ph_endian (hv_ph (sm_view sm))) b = Ok m /\ header m = Ok (sm_view sm) /\ body m = Ok (sm_body sm)
+            /\ m_bytes m = b /\ ph_serial (m_ph m) = ph_serial (hv_ph (sm_view sm)).
+Proof.
+  intros H Hty. unfold spec_parse in H.
+  destruct b as [|c0 r] eqn:Eb; [discriminate|]. rewrite <- Eb in *.
+  destruct (endian_of_byte c0) as [e|] eqn:Ee; [|discriminate].
+  destruct (sp_byte b 1) as [[ty q1]|] eqn:E1; [|discriminate].
+  destruct (sp_byte b 2) as [[fl q2]|] eqn:E2; [|discriminate].
+  destruct (sp_byte b 3) as [[ver q3]|] eqn:E3; [|discriminate].
+  destruct (sp_u32 e b 4) as [[bl q4]|] eqn:E4; [|discriminate].
+  destruct (sp_u32 e b 8) as [[sn q8]|] eqn:E8; [|discriminate].
+  destruct (sp_u32 e b 12) as [[flen p]|] eqn:E12; [|discriminate].
+  destruct ((ver =? 1) && negb (sn =? 0) && negb (ty =? 0) && (len b <=? max_message_size)) eqn:Ec; [|discriminate].
+  apply andb_prop in Ec. destruct Ec as [Ec Emax]. apply andb_prop in Ec. destruct Ec as [Ec _].
+  apply andb_prop in Ec. destruct Ec as [Ever Esn].
+  destruct (sp_fields (S (length b)) e b (p + flen) p sfields_empty) as [a|] eqn:Ef; [|discriminate].
+  destruct (sp_align b (p + flen) 8) as [off|] eqn:Eo; [|discriminate].
+  destruct (off + bl =? len b) eqn:Elen; [|discriminate]. injection H as <-.
+  cbn [sm_type sm_view sm_body hv_ph ph_endian ph_serial] in *.
+  apply sp_byte_at in E1. destruct E1 as [D1 Hty']. apply sp_byte_at in E2. destruct E2 as [D2 Hfl]. apply sp_byte_at in E3. destruct E3 as [D3 Hver].
+  apply sp_u32_at in E4; [|reflexivity]. destruct E4 as (D4 & _ & _ & Hbl).
+  apply sp_u32_at in E8; [|reflexivity]. destruct E8 as (D8 & _ & _ & Hsn).
+  apply sp_u32_at in E12; [|reflexivity]. destruct E12 as (D12 & -> & Hl16 & Hflen).
+  change (12 + 4) with 16 in *. change (8 + 4) with 12 in *. change (4 + 4) with 8 in *.
+  change (1 + 1) with 2 in *. change (2 + 1) with 3 in *. change (3 + 1) with 4 in *.
+  apply sp_align_ok in Eo. destruct Eo as [_ Eoff].
+  assert (D0 : de_u8 b 0 = Ok (bn c0, 1)).
+  { rewrite Eb. change (c0 :: r) with ([] ++ c0 :: r). apply (de_u8_at [] c0 r 0). reflexivity. }
+  (* primary header *)
+  assert (Hprim : de_primary e b = Ok ({| ph_endian := e; ph_type := ty; ph_flags := fl mod 8; ph_version := ver; ph_body_len := bl; ph_serial := sn |}, 12)).
+  { unfold de_primary. rewrite parse_padding_aligned by (reflexivity || lia). cbn [bind].
+    rewrite D0. cbn [bind]. rewrite nb_bn, Ee. rewrite D1. cbn [bind].
+    replace ((1 <=? ty) && (ty <=? 4)) with true by lia. cbn [negb].
+    rewrite D2. cbn [bind]. rewrite D3. cbn [bind]. rewrite D4. cbn [bind]. rewrite D8. cbn [bind].
+    apply Bool.negb_true_iff in Esn. rewrite Esn. reflexivity. }
+  (* fields *)
+  destruct (fields_loop e b (16 + flen) (S (length b)) 16 sfields_empty a fields_empty ltac:(lia) eq_refl Ef) as (fs & Hloop & Hj).
+  assert (Hdf : de_fields e b = Ok (fs, 16 + flen)).
+  { unfold de_fields. rewrite D12. cbn [bind]. rewrite parse_padding_aligned by (reflexivity || lia). cbn [bind]. exact Hloop. }
+  pose proof (de_fields_ok _ _ _ _ Hdf) as Hinv.
+  assert (Hlen32 : len b < two32) by (unfold max_message_size, two32 in *; lia).
+  (* the message *)
+  exists {| m_ph := {| ph_endian := e; ph_type := ty; ph_flags := fl mod 8; ph_version := ver; ph_body_len := bl; ph_serial := sn |};
+            m_qf := quick_fields b fs; m_bytes := b; m_body_offset := off |}.
+  split; [|split; [|split; [|split; reflexivity]]].
+  - unfold from_raw_parts. rewrite Eb at 1. rewrite Ee, endian_eqb_refl. cbn [negb].
+    rewrite Hprim. cbn [bind N.eqb Pos.eqb negb].
+    unfold data_slice. replace (len b <? 12) with false by lia. cbn [bind]. rewrite D12. cbn [bind]. rewrite Hdf. cbn [bind].
+    cbv zeta. rewrite <- Eoff. replace (len b <? off) with false by lia. reflexivity.
+  - destruct Hinv as (I1 & I2 & I3 & I4 & I5 & I6 & V1 & V2 & V3 & V4 & V5 & V6).
+    destruct (proj_eqs _ _ Hj) as (P1 & P2 & P3 & P4 & P5 & P6 & P7 & P8 & P9).
+    unfold header. cbn [m_bytes m_qf m_ph quick_fields q_path q_iface q_member q_errname q_reply q_dest q_sender q_sig q_fds].
+    rewrite (fp_read_exact validate_object_path _ _ I1 Hlen32 (ovalid_optb _ _ V1)). cbn [bind].
+    rewrite (fp_read_exact validate_interface _ _ I2 Hlen32 (ovalid_optb _ _ V2)). cbn [bind].
+    rewrite (fp_read_exact validate_member _ _ I3 Hlen32 (ovalid_optb _ _ V3)). cbn [bind].
+    rewrite (fp_read_exact validate_error _ _ I4 Hlen32 (ovalid_optb _ _ V4)). cbn [bind].
+    rewrite (fp_read_exact validate_bus _ _ I5 Hlen32 (ovalid_optb _ _ V5)). cbn [bind].
+    rewrite (fp_read_exact validate_unique _ _ I6 Hlen32 (ovalid_optb _ _ V6)). cbn [bind].
+    rewrite P1, P2, P3, P4, P5, P6, P7, P8, P9. reflexivity.
+  - unfold body, data_slice. cbn [m_bytes m_body_offset]. replace (len b <? off) with false by lia. reflexivity.
+Qed.
